@@ -115,6 +115,14 @@ def c07_cases(quick, seed):
             add(b"cmd", list(t))
     for _ in range(500 if quick else 10000):
         add(rng.choice([b"cmd", b"x"]), [arg() for _ in range(rng.randint(1, 4))])
+    # a line feed / NUL at EVERY offset 0 .. 70 of an otherwise plain argument (word-at-a-time scans, block boundaries), with and
+    # without characters before it that are escaped or take several bytes, through every string-ish renderer
+    for bad in (10, 0):
+        for off in range(0, 71):
+            for k, pre in enumerate(([97] * off, [97] * max(0, off - 2) + [34] + [97] * min(off, 1), [195, 169] * (off // 2) + [97] * (off % 2))):
+                v = (pre + [bad] + [107, 105, 108, 108])
+                add(b"cmd", [{"ty": ("str", "raw", "string", "cow")[(off + k) % 4], "v": v}])
+            add(b"cmd", [{"ty": "str", "v": [97]}, {"ty": "raw", "v": [120] * off + [bad]}, {"ty": "str", "v": [98]}])
     # typed arguments that render themselves (mpd_client's Tag): a hand-built catch-all tag may hold a line feed
     for ty in ("tag", "tagref"):
         for v in (b"Artist", b"a\nb", b"\nkill", b"x\n", b"a\x00b", b"Artist\ncommand_list_end", b"\n"):
